@@ -996,6 +996,13 @@ def t_call(E):
                 fu = obj.fields['fut']
                 if name == 'done':
                     return VStub('Future.done', lambda E_, a, k: VBool(z3.Select(fut_world(E)[0], fu) != PENDING))
+                if name == 'cancel':
+                    def fcancel(E_, a, k):
+                        E.oblige(Qn + '/exit.a_caller_never_cancels_the_future_shared_under_its_key', z3.BoolVal(False),
+                                 props={'C09', 'C04', 'C11'},
+                                 detail='other callers may have joined the key; the request may already be in a batch')
+                        raise PathEnd()
+                    return VStub('Future.cancel', fcancel)
                 if name == 'cancelled':
                     return VStub('Future.cancelled', lambda E_, a, k: VBool(z3.Select(fut_world(E)[0], fu) == CANCELLED))
                 if name == 'exception':
